@@ -12,7 +12,7 @@ from lib import common, gen
 from lib.hist import KVStore, SQLStore
 from lib.kvimpl import model_event
 
-THEOREMS_TIED = ["C08_kv_delete_frame", "C08_sql_delete_exact", "C08_sql_delete_frame", "C08_sql_delete_complete"]
+THEOREMS_TIED = ["C08_kv_delete_frame", "C08_kv_delete_complete", "C08_kv_delete_complete_reachable", "C08_sql_delete_exact", "C08_sql_delete_frame", "C08_sql_delete_complete"]
 
 AUTH = gen.AUTHORS[2:5]
 T0 = gen.T0
